@@ -4309,6 +4309,20 @@ theorem merge_key_ok_of_d1 {big128 : Bool} {N b S rk : Nat} {sk : List Poly} {ke
     MergeKeyOk big128 N b S rk sk key gInv EL KL Dm (traceBA N b S key.mat.size key.mat.colsIn key.mat.rows sn Emax) :=
   KsDec.mergeKeyOk_of_d1 h sn h1 h2
 
+/-- **the `PackCoeffContract` of slice bin-fhe (`WordMachine.pack_spec`: `|slot (pack cs) i − c0 (ph (cs i))| ≤ Bp`) for the EXECUTED `glwe_pack`**: `slot = slotRead` (coefficient `J` of the phase, centred mod `2^M`), `c0 ∘ ph = slotU`, `Bp` any integer with `2c·Bp ≥` the noise sum of `glwe_pack_decrypts_noise`, no wrap (`|u_J| + Bp < 2^(M−1)`) -/
+theorem glwe_pack_slot_contract (big128 : Bool) (K : ℕ) (hK : K + 1 ≤ 64) (keys : List Ks.Key) (sk : List Poly) (b S Sk rk : ℕ)
+    (hb62 : b ≤ 62) (H : ℤ) (hH : 2 ^ b - 1 ≤ H) (hh2 : NormL.HeadRoom 64 b 0 (H + H)) (BA : ℕ → ℤ) (hBA : ∀ i, 0 ≤ BA i)
+    (hsk : Ks.AllLen (2 ^ K) sk) (hkeys : PackKeys big128 K b S Sk rk sk keys BA)
+    (a : Ks.SlotMap) (logGapOut : ℕ) (res : Ks.Ct) (ha : ∀ j, OptInv (2 ^ K) b S rk H (a.get j))
+    (h : Ks.pack big128 (2 ^ K) b keys b S a logGapOut = .ok res) (Bp : ℤ) (hM : 1 ≤ b * S)
+    (hBp : ∑ i ∈ Finset.range (K - logGapOut), 2 ^ (K - logGapOut - 1 - i) * mergeBeta b S Sk rk sk (BA i)
+          + 2 * ∑ t ∈ Finset.range (K - (K - logGapOut)),
+              (cc b S Sk * (2 * (1 + snorm (min rk sk.length) sk)) + BA (K - logGapOut + t)) ≤ (2 * cc b S Sk) * Bp)
+    (J : ℕ) (hJ : J < 2 ^ K)
+    (hfit : |(if J % 2 ^ (K - (K - logGapOut)) = 0 then slotU b (2 ^ K) sk a J else 0)| + Bp < 2 ^ (b * S - 1)) :
+    |slotRead b S (2 ^ K) sk res J - (if J % 2 ^ (K - (K - logGapOut)) = 0 then slotU b (2 ^ K) sk a J else 0)| ≤ Bp :=
+  KsDec.glwe_pack_slot_contract big128 K hK keys sk b S Sk rk hb62 H hH hh2 BA hBA hsk hkeys a logGapOut res ha h Bp hM hBp J hJ hfit
+
 /-- **closed instance**: `N = 2`, both slots present, ONE EXECUTED merge with a genuine key for `g = −1`, both accumulator widths, every hypothesis discharged: `|e| ≤ 38` (executed: `4` and `0`) -/
 theorem pack_one_merge_closed_instance (big128 : Bool) (J : ℕ) (hJ : J < 2 ^ 1) :
     Ks.pack big128 (2 ^ 1) 4 [trKey] 4 2 [(0, trCt), (1, pkB)] 0 = .ok pkOut ∧
@@ -4319,6 +4333,10 @@ theorem pack_one_merge_closed_instance (big128 : Bool) (J : ℕ) (hJ : J < 2 ^ 1
 /-- the key of the closed instance satisfies `MergeKeyOk` with `BA = 2^16·32`, both widths -/
 example (big128 : Bool) : KsDec.MergeKeyOk big128 (2 ^ 1) 4 2 1 KsDec.trSk KsDec.trKey (-1) KsDec.trEL (fun _ _ => [0, 0]) 2 (2 ^ 16 * 32) :=
   KsDec.trKey_merge big128
+example (J : ℕ) (hJ : J < 2 ^ 1) :
+    |KsDec.slotRead 4 2 (2 ^ 1) KsDec.trSk KsDec.pkOut J - KsDec.slotU 4 (2 ^ 1) KsDec.trSk [(0, KsDec.trCt), (1, KsDec.pkB)] J| ≤ 38 := by
+  have hJ' : J = 0 ∨ J = 1 := by omega
+  rcases hJ' with rfl | rfl <;> decide +kernel
 end PackInstanceSec
 
 end C03
